@@ -269,6 +269,9 @@ func selectDeflate(extensions []websocketExtension, mode CompressionMode) (*comp
 }
 
 func acceptDeflate(ext websocketExtension, mode CompressionMode) (*compressionOptions, bool) {
+	if duplicateParam(ext.params) {
+		return nil, false
+	}
 	copts := mode.opts()
 	for _, p := range ext.params {
 		switch p {
@@ -290,6 +293,27 @@ func acceptDeflate(ext websocketExtension, mode CompressionMode) (*compressionOp
 		return nil, false
 	}
 	return copts, true
+}
+
+// duplicateParam reports whether two of the parameters of an extension have
+// the same name. Such an offer or response is malformed (RFC 7692 section 7).
+func duplicateParam(params []string) bool {
+	for i, p := range params {
+		for _, q := range params[:i] {
+			if paramName(p) == paramName(q) {
+				return true
+			}
+		}
+	}
+	return false
+}
+
+// paramName returns the name of an extension parameter without its value.
+func paramName(p string) string {
+	if i := strings.IndexByte(p, '='); i >= 0 {
+		return p[:i]
+	}
+	return p
 }
 
 // validWindowBits reports whether v is a well-formed value of a
